@@ -74,6 +74,9 @@ pub struct KnownFinding {
     /// part of the violation key contains exactly this atom
     #[serde(default)]
     pub class_atom: Option<String>,
+    /// the finding is a family of keys: `key` is a prefix of "<invariant>:<key>"
+    #[serde(default)]
+    pub key_is_prefix: bool,
     /// like `class_atom`, but the atom only has to START with this text
     /// (e.g. "ref>integer:" for every integer format)
     #[serde(default)]
@@ -114,6 +117,9 @@ pub fn match_known<'a>(
     known.iter().find(|k| {
         if k.status != "known" || k.property != property {
             return false;
+        }
+        if k.key_is_prefix {
+            return full.starts_with(k.key.as_str());
         }
         if let (Some(prefix), Some(c)) = (&k.class_atom_prefix, &class) {
             return k.key == head && c.starts_with(prefix.as_str());
